@@ -23,6 +23,19 @@ pub struct Case {
     pub kinds: u8,
 }
 
+pub fn dest_of(variant: usize, w: u16, h: u16) -> (u16, u16, u16, u16) {
+    match variant % 8 {
+        0 => (0, 0, w.saturating_sub(1), h.saturating_sub(1)),
+        1 => (0, 0, (w / 2).saturating_sub(1), (h / 2).saturating_sub(1)),
+        2 => (10, 20, 10u16.saturating_add(w.saturating_sub(1)), 20u16.saturating_add(h.saturating_sub(1))),
+        3 => (0, 0, 0, 0),
+        4 => (65535, 65535, 65535, 65535),
+        5 => (w, h, 0, 0),
+        6 => (3, 3, 3u16.saturating_add(w.saturating_sub(1)), 3u16.saturating_add(h.saturating_sub(2))),
+        _ => (0, 0, w, h.saturating_sub(1)),
+    }
+}
+
 fn flip_rows<T: Copy>(v: &[T], row: usize, h: usize) -> Vec<T> {
     let mut out = Vec::with_capacity(v.len());
     for r in (0..h).rev() {
@@ -65,7 +78,12 @@ pub fn run(c: &Case) -> Outcome {
     if h >= 2 {
         out.label("multi-row");
     }
-    let ev = BitmapEvent { dest_left: 0, dest_top: 0, dest_right: c.w.saturating_sub(1), dest_bottom: c.h.saturating_sub(1), width: c.w, height: c.h, bpp: if c.mode == 0 || c.mode == 2 { 16 } else { 32 }, is_compress: c.mode < 2, data: c.encoded.clone() };
+    // the destination rectangle is independent of the bitmap's own size (servers pad widths, clip at the screen edge ...):
+    // the decoded image must not depend on it. The variant is a pure function of the case.
+    let dv = (c.w as usize * 31 + c.h as usize * 17 + c.encoded.len() * 7 + c.encoded.first().copied().unwrap_or(0) as usize) % 8;
+    let (dl, dt, dr, db) = dest_of(dv, c.w, c.h);
+    out.label(["dest:exact", "dest:smaller", "dest:offset", "dest:zero", "dest:max", "dest:inverted", "dest:one-row-less", "dest:wider"][dv]);
+    let ev = BitmapEvent { dest_left: dl, dest_top: dt, dest_right: dr, dest_bottom: db, width: c.w, height: c.h, bpp: if c.mode == 0 || c.mode == 2 { 16 } else { 32 }, is_compress: c.mode < 2, data: c.encoded.clone() };
     let (r, _) = call(move || ev.decompress());
     match r {
         Res::Ok(v) => {
